@@ -77,6 +77,18 @@ Args ARGS;
 
 #include "harness/c09_model.hh"
 
+// model-level omega-reduction: drop empty cells and cells included in another one (one copy of equal cells)
+U model_omega(const U& s) {
+  U o;
+  for (size_t i = 0; i < s.size(); ++i) {
+    if (CT.empty[s[i]]) continue;
+    bool drop = false;
+    for (size_t j = 0; j < s.size() && !drop; ++j) if (i != j && !CT.empty[s[j]] && csubset(s[i], s[j]) && (!csubset(s[j], s[i]) || j < i)) drop = true;
+    if (!drop) o.push_back(s[i]);
+  }
+  return o;
+}
+
 // ------------------------------------------------------------------ menus
 CN lo(int v, long num, long den = 1, bool strict = false) { LE e; e.a.assign(v + 1, 0); e.a[v] = den; e.b = -num; return CN(e, strict ? ref::GT : ref::GE); }
 CN hi(int v, long num, long den = 1, bool strict = false) { LE e; e.a.assign(v + 1, 0); e.a[v] = -den; e.b = num; return CN(e, strict ? ref::GT : ref::GE); }
@@ -461,14 +473,31 @@ void build_ops(int menu_n, bool full_slot1) {
       o.ok = same_dim;
       o.apply = [t, s](Pool2& P) { return B(P.p[t]->simplify_using_context_assign(*P.p[s])); };
       o.check = [t, s](const Pre& pre, const Snap* post, const std::string& ret) -> std::string {
+        // doc/definitions.dox "Meet-Preserving Simplification" (powersets): the result S is, w.r.t. the omega-reduced
+        // receiver S1 = {d_i} and context S2 = {c_j},
+        //  (a) powerset meet-preserving: meet(S, S2) == meet(S1, S2)   (also when that meet is empty);
+        //  (b) a powerset simplification: #S <= #S1;
+        //  (c) a disjunct meet-preserving simplification: every s_k has a d_i such that, for each c_j,
+        //      s_k is a meet-preserving enlargement of d_i using context c_j  (s_k >= d_i, s_k /\ c_j == d_i /\ c_j).
+        // The Boolean result is false iff the meet is empty.
         U m = umeet(pre.s[t].seq, pre.s[s].seq);
         bool me = uempty(m);
         if (ret == "false" && !me) return bad("simplify:false-but-meet-nonempty", ret, "true");
         if (ret == "true" && me) return bad("simplify:true-but-meet-empty", ret, "false");
-        if (me) return "";
         U m2 = umeet(post[t].seq, pre.s[s].seq);
         if (!uequal(m, m2)) return bad("simplify:meet-not-preserved", ustr(post[t].seq) + " (meet with context " + ustr(m2) + ")", "meet with context " + ustr(m), uwitness(m2, m));
-        if (post[t].seq.size() > pre.s[t].seq.size()) return bad("simplify:size-increased", std::to_string(post[t].seq.size()), "<= " + std::to_string(pre.s[t].seq.size()));
+        U s1 = model_omega(pre.s[t].seq), s2 = model_omega(pre.s[s].seq);
+        if (post[t].seq.size() > s1.size()) return bad("simplify:size-increased", std::to_string(post[t].seq.size()), "<= " + std::to_string(s1.size()) + " (disjuncts of the omega-reduced receiver)");
+        if (!me) for (int sk : post[t].seq) {
+          bool found = false;
+          for (int di : s1) {
+            if (!csubset(di, sk)) continue;
+            bool all = true;
+            for (int cj : s2) { U a(1, sk), b(1, di), c(1, cj); if (!uequal(umeet(a, c), umeet(b, c))) { all = false; break; } }
+            if (all) { found = true; break; }
+          }
+          if (!found) return bad("simplify:disjunct-not-a-meet-preserving-enlargement-of-a-receiver-disjunct", ref::cell_str(CT[sk]) + " in " + ustr(post[t].seq), "each result disjunct enlarges some disjunct of " + ustr(s1) + " and preserves its meet with every disjunct of " + ustr(s2));
+        }
         return ""; };
       add(o); }
     // constraints
@@ -740,8 +769,8 @@ void build_observers(bool full_slot1) {
       if (ret == "true" && !usubset(pre.s[s].seq, pre.s[t].seq)) return bad("contains-does-not-imply-geometric-containment", ret, "false");
       return ret == B(all) ? "" : bad("observer:answer!=documented-disjunctwise-test", ret, B(all)); });
     binary("strictly_contains", [](PS& x, PS& y) { return B(x.strictly_contains(y)); }, [t, s](CP pre, SP post, CS ret) -> std::string {
-      bool all = true;   // on the (omega-reduced) receiver as it is after the call
-      for (int b : pre.s[s].seq) { bool f = false; for (int a : post[t].seq) if (csubset(b, a) && !csubset(a, b)) { f = true; break; } if (!f) { all = false; break; } }
+      bool all = true;   // on the (omega-reduced) receiver and argument as they are after the call (both are omega-reduced by it)
+      for (int b : post[s].seq) { bool f = false; for (int a : post[t].seq) if (csubset(b, a) && !csubset(a, b)) { f = true; break; } if (!f) { all = false; break; } }
       if (ret == "true" && !usubset(pre.s[s].seq, pre.s[t].seq)) return bad("contains-does-not-imply-geometric-containment", ret, "false");
       return ret == B(all) ? "" : bad("observer:answer!=documented-disjunctwise-test", ret, B(all)); });
     binary("operator==", [](PS& x, PS& y) { return B(x == y); }, [t, s](CP pre, SP, CS ret) -> std::string {
